@@ -228,3 +228,74 @@ Theorem c13_dom_span_routes :
 Proof. exact DomSplit.c13_dom_span_routes. Qed.
 Print Assumptions c13_dom_span_routes.
 
+
+(* DOM level (Proofs/DomBlocks.v): text nodes and comments among the children of ol / dl (given
+   the list does not become empty: the recorded finding empty_list_with_whitespace), tr and table
+   do not change the render tree at all; a comment anywhere changes nothing *)
+From H2T Require Import Base Tagged Wrap Sub Css Dom Render Api CssParse Proofs.CssTotal Proofs.WrapInv Proofs.RenderWidth Proofs.Conserve Proofs.Footnotes Proofs.AnnBalance Proofs.RenderConserve Proofs.OptionRel Proofs.Compose Proofs.RenderTotal Proofs.FragStream Proofs.SimRel Proofs.Prune Proofs.DomBlocks.
+
+Theorem ol_insert_nonelem :
+  forall (sd : styledata) (udc : bool) (inl : list (text * text) -> res (list styledecl)) 
+         (name : text) (attrs : list (text * text)) (l1 : list node) (x : node) (l2 : list node)
+         (p : list anc) (idx : Z),
+       cps name = Nm.ol ->
+       is_elem x = false ->
+       process_kids sd udc inl (l1 ++ l2) ({| a_name := name; a_attrs := attrs; a_idx := idx |} :: p) 1 <>
+       Ok [] ->
+       process sd udc inl (NElem true name attrs (l1 ++ x :: l2)) p idx =
+       process sd udc inl (NElem true name attrs (l1 ++ l2)) p idx.
+Proof. exact DomBlocks.ol_insert_nonelem. Qed.
+Print Assumptions ol_insert_nonelem.
+
+Theorem dl_insert_nonelem :
+  forall (sd : styledata) (udc : bool) (inl : list (text * text) -> res (list styledecl)) 
+         (name : text) (attrs : list (text * text)) (l1 : list node) (x : node) (l2 : list node)
+         (p : list anc) (idx : Z),
+       cps name = Nm.dl ->
+       is_elem x = false ->
+       process_kids sd udc inl (l1 ++ l2) ({| a_name := name; a_attrs := attrs; a_idx := idx |} :: p) 1 <>
+       Ok [] ->
+       process sd udc inl (NElem true name attrs (l1 ++ x :: l2)) p idx =
+       process sd udc inl (NElem true name attrs (l1 ++ l2)) p idx.
+Proof. exact DomBlocks.dl_insert_nonelem. Qed.
+Print Assumptions dl_insert_nonelem.
+
+Theorem pk_text_nonempty :
+  forall (sd : styledata) (udc : bool) (inl : list (text * text) -> res (list styledecl))
+         (kids : list node) (p : list anc) (i : Z) (t : text),
+       In (NText t) kids -> process_kids sd udc inl kids p i <> Ok [].
+Proof. exact DomBlocks.pk_text_nonempty. Qed.
+Print Assumptions pk_text_nonempty.
+
+Theorem any_insert_comment :
+  forall (sd : styledata) (udc : bool) (inl : list (text * text) -> res (list styledecl)) 
+         (name : text) (attrs : list (text * text)) (l1 : list node) (x : node) (l2 : list node)
+         (p : list anc) (idx : Z),
+       x = NComment \/ x = NOther ->
+       process sd udc inl (NElem true name attrs (l1 ++ x :: l2)) p idx =
+       process sd udc inl (NElem true name attrs (l1 ++ l2)) p idx.
+Proof. exact DomBlocks.any_insert_comment. Qed.
+Print Assumptions any_insert_comment.
+
+Theorem tr_insert_nonelem :
+  forall (sd : styledata) (udc : bool) (inl : list (text * text) -> res (list styledecl)) 
+         (name : text) (attrs : list (text * text)) (l1 : list node) (x : node) (l2 : list node)
+         (p : list anc) (idx : Z),
+       cps name = Nm.tr ->
+       is_elem x = false ->
+       process sd udc inl (NElem true name attrs (l1 ++ x :: l2)) p idx =
+       process sd udc inl (NElem true name attrs (l1 ++ l2)) p idx.
+Proof. exact DomBlocks.tr_insert_nonelem. Qed.
+Print Assumptions tr_insert_nonelem.
+
+Theorem table_insert_nonelem :
+  forall (sd : styledata) (udc : bool) (inl : list (text * text) -> res (list styledecl)) 
+         (name : text) (attrs : list (text * text)) (l1 : list node) (x : node) (l2 : list node)
+         (p : list anc) (idx : Z),
+       cps name = Nm.table ->
+       is_elem x = false ->
+       process sd udc inl (NElem true name attrs (l1 ++ x :: l2)) p idx =
+       process sd udc inl (NElem true name attrs (l1 ++ l2)) p idx.
+Proof. exact DomBlocks.table_insert_nonelem. Qed.
+Print Assumptions table_insert_nonelem.
+
